@@ -1,6 +1,10 @@
-// Correspondence harness for C19 / N6: the real DnsTransport::processResponse (private), reached without starting the
-// transport: pending queries are injected into `pendingQueries_`, the response bytes are handed to processResponse exactly as
-// handleUdpData / handleTcpData do, and what completes (result / error / nothing) is observed through the query callbacks.
+// Correspondence harness for C19 / N6: the real DnsTransport receive side (private), reached without starting the transport.
+//  * `resp …`: pending queries are injected into `pendingQueries_`, the response bytes are handed to processResponse, and what
+//    completes (result / error / nothing) is observed through the query callbacks.
+//  * `t …` (stateful, a case starts with `t reset`): the REAL data callbacks handleTcpData / handleUdpData / handleClose on a
+//    transport with three configured server:port pairs, `sessionToServer_` and `pendingQueries_` injected, `tcpTransport_`
+//    a Transport over a scripted engine that records every close(); every read is an exact-size heap copy (AddressSanitizer
+//    sees any read past the end of a segment), and the message handed to processResponse is the code's own exact-size vector.
 #include <algorithm>
 #include <arpa/inet.h>
 #include <atomic>
@@ -42,8 +46,10 @@
 #undef private
 #undef protected
 #include "common/lineproto.hpp"
+#include "common/fake_engine.hpp"
 
 using namespace iora::network::dns;
+using namespace iora::network;
 using vh::Bytes;
 
 static std::string demangle(const char* n)
@@ -71,9 +77,171 @@ static DnsTransport& transport()
   return *g_t;
 }
 
+
+// ---------------------------------------------------------------- stateful receive side: t reset / sess / pend / tcp / udp / close
+struct Srv { const char* host; std::uint16_t port; };
+static const Srv kServers[3] = {{"10.0.0.1", 53}, {"10.0.0.2", 53}, {"10.0.0.1", 5353}};   // host AND port distinguish a QueryKey
+static std::shared_ptr<DnsTransport> g_tt;
+static vh::FakeEngine* g_eng = nullptr;
+static std::vector<std::string> g_events;
+static unsigned long long g_cnt[8] = {0};   // tcp reads, udp reads, completions (R+E), closes, TCP re-sends (fallback), R, E, reads with >= 2 completions
+
+static int srvIndex(const std::string& h, std::uint16_t p)
+{
+  for (int i = 0; i < 3; ++i) if (h == kServers[i].host && p == kServers[i].port) return i;
+  return -1;
+}
+
+static std::string tState(unsigned long long sid, bool withBuf)
+{
+  DnsTransport& tr = *g_tt;
+  std::string out;
+  for (auto& e : g_events) { if (!out.empty()) out += ";"; out += e; }
+  if (out.empty()) out = "-";
+  g_events.clear();
+  if (withBuf)
+  {
+    std::lock_guard<std::mutex> lock(tr.tcpBuffersMutex_);
+    auto it = tr.tcpBuffers_.find(static_cast<SessionId>(sid));
+    out += " | buf=" + std::to_string(it == tr.tcpBuffers_.end() ? 0 : it->second.size());
+  }
+  std::vector<std::pair<unsigned, int>> left;
+  {
+    std::lock_guard<std::mutex> lock(tr.queriesMutex_);
+    for (auto& kv : tr.pendingQueries_) left.emplace_back(kv.first.queryId, srvIndex(kv.first.server, kv.first.port));
+  }
+  std::sort(left.begin(), left.end());
+  out += " | pending=";
+  if (left.empty()) out += "-";
+  for (std::size_t i = 0; i < left.size(); ++i) { if (i) out += ","; out += std::to_string(left[i].first) + "@" + std::to_string(left[i].second); }
+  return out;
+}
+
+static std::string tstep(const std::vector<std::string>& t)
+{
+  if (t.size() == 4 && t[1] == "reset")
+  {
+    unsigned long long cap;
+    if (!vh::parseNat(t[2], cap)) return "bad-op";
+    std::vector<DnsServer> servers;
+    DnsConfig cfg(std::vector<std::string>{kServers[0].host}, kServers[0].port);
+    cfg.servers.clear();
+    for (auto& s : kServers) { DnsServer d; d.address = s.host; d.port = s.port; cfg.servers.push_back(d); }
+    if (t[3] != "udp" && t[3] != "tcp" && t[3] != "both") return "bad-op";
+    // both: a truncated UDP answer makes processResponse re-send the query over TCP (sendTcpQuery on the scripted engine)
+    cfg.transportMode = t[3] == "tcp" ? DnsTransportMode::TCP : t[3] == "both" ? DnsTransportMode::Both : DnsTransportMode::UDP;
+    cfg.maxTcpBufferSize = static_cast<std::size_t>(cap);
+    if (g_tt) g_tt->stop();          // drops the timeout timers armed by sendTcpQuery (their callbacks hold the transport)
+    g_tt.reset();
+    g_tt = std::make_shared<DnsTransport>(cfg);
+    auto fe = std::make_unique<vh::FakeEngine>();
+    g_eng = fe.get();
+    g_eng->onCloseCall = [](SessionId sid) { g_events.push_back("C:" + std::to_string(sid)); ++g_cnt[3]; };
+    g_eng->onSend = [](SessionId sid, const std::string& b) {
+      ++g_cnt[4];
+      g_events.push_back("F:" + std::to_string(sid) + ":" + vh::toHex(reinterpret_cast<const std::uint8_t*>(b.data()), b.size()));
+    };
+    TransportConfig tc;
+    tc.protocol = Protocol::TCP;
+    g_tt->tcpTransport_ = iora::network::test::TransportEngineInjector::withEngine(std::move(fe), tc);
+    g_events.clear();
+    return "ok";
+  }
+  if (!g_tt) return "bad-op";
+  DnsTransport& tr = *g_tt;
+  if (t.size() == 4 && t[1] == "sess")
+  {
+    unsigned long long sid, si;
+    if (!vh::parseNat(t[2], sid) || !vh::parseNat(t[3], si) || si > 2) return "bad-op";
+    std::lock_guard<std::mutex> lock(tr.sessionsMutex_);
+    tr.sessionToServer_[static_cast<SessionId>(sid)] = {kServers[si].host, kServers[si].port};
+    return "ok";
+  }
+  if (t.size() == 3 && t[1] == "pend")
+  {
+    std::size_t i = 0;
+    const std::string& a = t[2];
+    while (a != "-" && i <= a.size())
+    {
+      std::size_t j = a.find(',', i);
+      if (j == std::string::npos) j = a.size();
+      std::string item = a.substr(i, j - i);
+      std::size_t at = item.find('@');
+      unsigned long long id, si;
+      if (at == std::string::npos || !vh::parseNat(item.substr(0, at), id) || !vh::parseNat(item.substr(at + 1), si) || id > 65535 || si > 2) return "bad-op";
+      // query data = the two id bytes (what a TCP fallback re-sends, length-prefixed); the timeout is far away: no timer fires during a case
+      auto q = std::make_shared<DnsTransport::PendingQuery>(static_cast<std::uint16_t>(id), std::chrono::milliseconds(3600000), kServers[si].host, kServers[si].port,
+                                                               std::vector<std::uint8_t>{static_cast<std::uint8_t>(id >> 8), static_cast<std::uint8_t>(id & 255)});
+      q->callback = [id, si](const DnsResult& r, const std::exception_ptr& e) {
+        ++g_cnt[2];
+        if (e)
+        {
+          std::string kind = "other";
+          try { std::rethrow_exception(e); }
+          catch (const DnsParseException&) { kind = "parse"; }
+          catch (const std::exception&) { kind = "std"; }
+          catch (...) { kind = "unknown"; }
+          ++g_cnt[6];
+          g_events.push_back("E:" + std::to_string(id) + "@" + std::to_string(si) + ":" + kind);
+        }
+        else
+        {
+          ++g_cnt[5];
+          g_events.push_back("R:" + std::to_string(id) + "@" + std::to_string(si) + ":" + std::to_string(r.header.id) + ":" + std::to_string(r.answers.size()));
+        }
+      };
+      {
+        std::lock_guard<std::mutex> lock(tr.queriesMutex_);
+        tr.pendingQueries_.emplace(DnsTransport::QueryKey(static_cast<std::uint16_t>(id), kServers[si].host, kServers[si].port), q);
+      }
+      i = j + 1;
+    }
+    return tState(0, false);
+  }
+  if (t.size() == 4 && (t[1] == "tcp" || t[1] == "udp"))
+  {
+    unsigned long long sid;
+    Bytes m;
+    if (!vh::parseNat(t[2], sid) || !vh::ofHex(t[3], m)) return "bad-op";
+    std::uint8_t* p = new std::uint8_t[m.size() ? m.size() : 1];
+    if (!m.empty()) std::memcpy(p, m.data(), m.size());
+    std::string thrown;
+    std::size_t before = g_events.size();
+    try
+    {
+      iora::core::BufferView view(p, m.size());
+      if (t[1] == "tcp") { ++g_cnt[0]; tr.handleTcpData(static_cast<SessionId>(sid), view, std::chrono::steady_clock::now()); }
+      else { ++g_cnt[1]; tr.handleUdpData(static_cast<SessionId>(sid), view, std::chrono::steady_clock::now()); }
+    }
+    catch (const std::exception& e) { thrown = "throw " + demangle(typeid(e).name()); }
+    catch (...) { thrown = "throw unknown"; }
+    delete[] p;
+    if (!thrown.empty()) return thrown;
+    std::size_t done = 0;
+    for (std::size_t i = before; i < g_events.size(); ++i) if (g_events[i][0] == 'R' || g_events[i][0] == 'E') ++done;
+    if (done >= 2) ++g_cnt[7];
+    return tState(sid, t[1] == "tcp");
+  }
+  if (t.size() == 3 && t[1] == "close")
+  {
+    unsigned long long sid;
+    if (!vh::parseNat(t[2], sid)) return "bad-op";
+    tr.handleClose(static_cast<SessionId>(sid), TransportErrorInfo{});
+    return tState(sid, true);
+  }
+  if (t.size() == 2 && t[1] == "counters")
+  {
+    std::string out = "counters";
+    for (auto v : g_cnt) out += " " + std::to_string(v);
+    return out;
+  }
+  return "bad-op";
+}
+
 // resp <udp|tcp> <pending ids, comma separated or -> <hex>
 static std::string step(const std::vector<std::string>& t)
 {
+  if (t.size() >= 2 && t[0] == "t") return tstep(t);
   if (t.size() == 4 && t[0] == "resp" && (t[1] == "udp" || t[1] == "tcp"))
   {
     Bytes m;
@@ -158,5 +326,7 @@ int main()
     catch (...) { return "throw unknown"; }
   });
   g_t.reset();
+  if (g_tt) g_tt->stop();
+  g_tt.reset();
   return rc;
 }
